@@ -37,10 +37,10 @@ Print Assumptions slice_state_full.
    for every element of every view, the ROI predicate at the pixel coordinates of that element; the generic path is
    used when the view removes a dimension. *)
 Theorem roi_shortcut_view :
-  forall (P : list Z -> bool) shape axis_ids view,
+  forall (own : bool) (P : list Z -> bool) shape axis_ids view,
     Forall (fun a => 0 <= a) axis_ids ->
-    fst (roi_pixel_mask P shape axis_ids view) = sel_shape (sel_of shape view) /\
-    forall j, snd (roi_pixel_mask P shape axis_ids view) j = P (roi_coords axis_ids (to_under (sel_of shape view) j)).
+    fst (roi_pixel_mask own P shape axis_ids view) = sel_shape (sel_of shape view) /\
+    forall j, snd (roi_pixel_mask own P shape axis_ids view) j = P (roi_coords axis_ids (to_under (sel_of shape view) j)).
 Proof. exact Lemmas.roi_shortcut_view. Qed.
 Print Assumptions roi_shortcut_view.
 
